@@ -726,7 +726,91 @@ Proof.
     destruct (fx_setitem clash key v root); inversion H; subst; [destruct S; discriminate|auto].
 Qed.
 
-Lemma step_commutes_fx root o : wf_r root -> wf_op_fx clash o = true -> core_op o = true -> rel_step_fx root o.
+(* ---- update(namespace, key, only_unset): a fold of (membership test;) assignment over the leaf items ------------- *)
+Lemma items_wf2 br v : wf2 v = true -> Forall (fun kv : str * val => wf2 (snd kv) = true) (ns_items_v br v).
+Proof.
+  induction v using val_ind2; intros W; try (simpl; constructor).
+  rewrite ns_items_v_ns.
+  induction d as [|[k x] d IHd]; [constructor|].
+  apply wf2_ns_cons in W. destruct W as (_ & Hx & Hd). inversion H as [|? ? Hx' Hd']; subst.
+  cbn [flat_map]. apply Forall_app. split; [|exact (IHd Hd' Hd)].
+  unfold itF. cbn [fst snd] in *. destruct x; try (constructor; [exact Hx|constructor]).
+  apply Forall_app. split.
+  - destruct br; constructor; [exact Hx|constructor].
+  - specialize (Hx' Hx). rewrite Forall_forall in *. intros kv Hin. apply in_map_iff in Hin.
+    destruct Hin as (sk & E0 & Hin). subst kv. exact (Hx' sk Hin).
+Qed.
+
+Definition m_upd (prefix : str) (ou : bool) (acc : alist * bool) (kv : str * val) : alist * bool :=
+  let '(r, failed) := acc in
+  if failed then acc else
+  let key := prefix ++ fst kv in
+  if ou && fx_contains clash key r then (r, false)
+  else match fx_setitem clash key (snd kv) r with
+       | Ok r' => (r', false)
+       | Fail => (r, true)
+       end.
+
+Definition s_upd (prefix : str) (ou : bool) (acc : sdict * bool) (kv : str * val) : sdict * bool :=
+  let '(s, failed) := acc in
+  if failed then acc else
+  match spec_key (prefix ++ fst kv) with
+  | None => (s, true)
+  | Some p => if ou && spec_contains p s then (s, false)
+              else (spec_set p (node_of_val (snd kv)) s, false)
+  end.
+
+Lemma m_upd_failed prefix ou l r : fold_left (m_upd prefix ou) l (r, true) = (r, true).
+Proof. induction l as [|a l IH]; [reflexivity|]. exact IH. Qed.
+
+Lemma s_upd_failed prefix ou l s : fold_left (s_upd prefix ou) l (s, true) = (s, true).
+Proof. induction l as [|a l IH]; [reflexivity|]. exact IH. Qed.
+
+Lemma updns_fold prefix ou l : forall root, wf_r root ->
+  Forall (fun kv : str * val => wf_key (prefix ++ fst kv) = true /\ wf2 (snd kv) = true) l ->
+  forall r f, fold_left (m_upd prefix ou) l (root, false) = (r, f) ->
+    fold_left (s_upd prefix ou) (map (fun kv => (fst kv, U (snd kv))) l) (abs_d root, false) = (abs_d r, f) /\ wf_r r.
+Proof.
+  induction l as [|[k v] l IH]; intros root W Hl r f H.
+  - simpl in *. inversion H; subst. auto.
+  - inversion Hl as [|? ? [Hk Hv] Hl']; subst. cbn [fst snd] in Hk, Hv.
+    cbn [map fold_left fst snd] in *. unfold m_upd at 2 in H. unfold s_upd at 2. cbn [fst snd] in *.
+    pose proof (contains_fx_refines root (prefix ++ k) W Hk) as C.
+    pose proof (set_fx_refines root (prefix ++ k) v W Hk Hv) as S. unfold spec_set_key in S.
+    destruct (spec_key (prefix ++ k)) as [p|] eqn:Es.
+    + rewrite C. destruct (ou && fx_contains clash (prefix ++ k) root).
+      * exact (IH root W Hl' r f H).
+      * destruct (fx_setitem clash (prefix ++ k) v root) as [r'|].
+        -- destruct S as [S1 S2]. inversion S1 as [S1']. unfold user_node in S1'. rewrite S1'.
+           exact (IH r' S2 Hl' r f H).
+        -- discriminate S.
+    + rewrite <- C in H. rewrite andb_false_r in H.
+      destruct (fx_setitem clash (prefix ++ k) v root) as [r'|]; [destruct S; discriminate|].
+      rewrite m_upd_failed in H. inversion H; subst. rewrite s_upd_failed. auto.
+Qed.
+
+Lemma step_updns_fx root src k ou' : wf_r root -> wf2 src = true -> upd_keys_ok src k = true ->
+  rel_step_fx root (OUpdNs src k ou').
+Proof.
+  intros W Hs Hk ou r md H. cbn [step_fixed] in H. unfold step_spec.
+  destruct src as [z|s0| |l|l|dd|nd]; try (inversion H; subst; unfold user_node; simpl; auto; fail).
+  rewrite user_node_ns.
+  change (match k with Some (c :: k') => (c :: k') ++ [DOT] | _ => [] end) with (upd_prefix k) in *.
+  cbn [upd_keys_ok] in Hk.
+  rewrite <- (items_agree_proof clash false nd (wf2_wf_val _ Hs)).
+  set (prefix := upd_prefix k) in *.
+  change (fold_left _ (ns_items false nd) (root, false)) with (fold_left (m_upd prefix ou') (ns_items false nd) (root, false)) in H.
+  destruct (fold_left (m_upd prefix ou') (ns_items false nd) (root, false)) as [r0 f0] eqn:F.
+  assert (Hl : Forall (fun kv : str * val => wf_key (prefix ++ fst kv) = true /\ wf2 (snd kv) = true) (ns_items false nd)).
+  { pose proof (items_wf2 false (VNs nd) Hs) as I. rewrite forallb_forall in Hk. rewrite Forall_forall in *.
+    intros kv Hin. split; [exact (Hk kv Hin)|exact (I kv Hin)]. }
+  destruct (updns_fold prefix ou' (ns_items false nd) root W Hl r0 f0 F) as [S Wr].
+  change (fold_left _ (map (fun kv => (fst kv, U (snd kv))) (ns_items false nd)) (abs_d root, false))
+    with (fold_left (s_upd prefix ou') (map (fun kv => (fst kv, U (snd kv))) (ns_items false nd)) (abs_d root, false)).
+  rewrite S. inversion H; subst. split; [|exact Wr]. destruct f0; reflexivity.
+Qed.
+
+Lemma step_commutes_fx root o : wf_r root -> wf_op_fx clash o = true -> core_op_fx o = true -> rel_step_fx root o.
 Proof.
   intros W Wo C. destruct o; try discriminate C; simpl in Wo;
     repeat match goal with H : _ && _ = true |- _ => apply andb_true_iff in H; destruct H end.
@@ -738,6 +822,7 @@ Proof.
   - now apply step_del_fx.
   - now apply step_pop_fx.
   - now apply step_updv_fx.
+  - now apply step_updns_fx.
   - intros ou r md E0. inversion E0; subst. auto.
   - intros ou r md E0. cbn [step_fixed] in E0.
     exact (step_items clash root branches (wf2_wf_val _ W) ou r E0) || idtac.
@@ -750,7 +835,7 @@ Qed.
 
 (* ---- histories ------------------------------------------------------------------------------------------------ *)
 Lemma run_refines_fx ops : forall root, wf_r root ->
-  forallb (wf_op_fx clash) ops = true -> forallb core_op ops = true ->
+  forallb (wf_op_fx clash) ops = true -> forallb core_op_fx ops = true ->
   Forall2 rel_out (run_fixed clash root ops) (run_spec (abs_d root) ops).
 Proof.
   induction ops as [|o ops IH]; intros root W Wo C; simpl in *; [constructor|].
@@ -761,10 +846,10 @@ Proof.
 Qed.
 
 Lemma hist_class_fx_0 ops : hist_class_fx clash ops = 0%N <->
-  forallb (wf_op_fx clash) ops = true /\ forallb core_op ops = true.
+  forallb (wf_op_fx clash) ops = true /\ forallb core_op_fx ops = true.
 Proof.
   unfold hist_class_fx. destruct (forallb (wf_op_fx clash) ops); simpl.
-  - destruct (forallb core_op ops); simpl; split; intros H; try discriminate; auto. destruct H; discriminate.
+  - destruct (forallb core_op_fx ops); simpl; split; intros H; try discriminate; auto. destruct H; discriminate.
   - split; intros H; [discriminate|]. destruct H; discriminate.
 Qed.
 
